@@ -1002,15 +1002,20 @@ class MyPyAstVisitor:
                 for mod in self.api.reexport_map[reexport_name_forward]:
                     reexported_by.add(mod)
 
+            # The key of a relative import starts at the package of the importing module: it has to lead to this
+            # declaration, not to a declaration of another package whose qualified name ends the same way
             reexport_name_backward = ".".join(path[-i - 1 :])
             if reexport_name_backward in self.api.reexport_map:
                 for mod in self.api.reexport_map[reexport_name_backward]:
-                    reexported_by.add(mod)
+                    if qname in {reexport_name_backward, f"{mod.id.replace('/', '.')}.{reexport_name_backward}"}:
+                        reexported_by.add(mod)
 
-            reexport_name_backward_whitelist = f"{'.'.join(path[-2 - i:-1])}.*"
+            module_name_backward = ".".join(path[-2 - i : -1])
+            reexport_name_backward_whitelist = f"{module_name_backward}.*"
             if reexport_name_backward_whitelist in self.api.reexport_map:
                 for mod in self.api.reexport_map[reexport_name_backward_whitelist]:
-                    reexported_by.add(mod)
+                    if ".".join(path[:-1]) in {module_name_backward, f"{mod.id.replace('/', '.')}.{module_name_backward}"}:
+                        reexported_by.add(mod)
 
         return list(reexported_by)
 
